@@ -193,3 +193,17 @@ def boundary_colls():
                     t['line'] = 'coll %s %s %d %d %s low' % (pt, bd, mx, bs, src)
                     out.append(t)
     return out
+
+
+def special_colls():
+    """hand-written collection histories for paths the random scripts reach rarely: small-node collections over one fixed / constant
+    block drained through the composable members, so that the block's remainder (several chunks of the small list) is handed to a
+    pool by insert_rest and later reservations must not touch it again"""
+    out = []
+    for src in ('fixed', 'const'):
+        for mx, bs in ((4, 4096), (2, 2048), (8, 6000)):
+            t = dict(kind='coll', pt='small', bd='identity', mx=mx, bs=bs, src=src, pos='low')
+            t['line'] = 'coll small identity %d %d %s low' % (mx, bs, src)
+            lines = [t['line']] + ['drain %d' % sz for sz in range(1, mx + 1)] + ['sweep'] + ['tn %d 1' % sz for sz in range(1, mx + 1)] + ['sweep', 'dall alt', 'drain 1', 'sweep', 'dall fwd', 'destroy']
+            out.append((t, '\n'.join(lines) + '\n'))
+    return out
